@@ -666,6 +666,7 @@ func (p *McClassCSessionAnsPayload) UnmarshalBinary(data []byte) error {
 	p.StatusAndMcGroupID.FreqError = data[0]&0x08 != 0
 	p.StatusAndMcGroupID.McGroupUndefined = data[0]&0x10 != 0
 
+	p.TimeToStart = nil
 	if !p.StatusAndMcGroupID.hasError() {
 		if len(data) < p.Size() {
 			return fmt.Errorf("lorawan/applayer/multicastsetup: %d bytes are expected", p.Size())
@@ -834,6 +835,7 @@ func (p *McClassBSessionAnsPayload) UnmarshalBinary(data []byte) error {
 	p.StatusAndMcGroupID.FreqError = data[0]&0x08 != 0
 	p.StatusAndMcGroupID.McGroupUndefined = data[0]&0x10 != 0
 
+	p.TimeToStart = nil
 	if !p.StatusAndMcGroupID.hasError() {
 		if len(data) < p.Size() {
 			return fmt.Errorf("lorawan/applayer/multicastsetup: %d bytes are expected", p.Size())
